@@ -28,9 +28,9 @@ std::vector<Op> *ops;        // allocated on the real heap (oracle scope)
 bool final_seen;
 std::vector<uint32_t> *final_vals;
 
-enum { PB_CONSUME_NONEMPTY = 0, PB_CONSUME_DURING_PUSH, PB_BATCHES_GE2, PB_SIZE_NONZERO, PB_OVERLAP };
+enum { PB_CONSUME_NONEMPTY = 0, PB_CONSUME_DURING_PUSH, PB_BATCHES_GE2, PB_SIZE_NONZERO, PB_OVERLAP, PB_LIN_BUDGET };
 const char *bprobe_names[] = {"consume_returned_items", "consume_overlapped_a_push", "items_split_over_two_or_more_batches",
-                              "size_observed_nonzero", "operations_overlapped", nullptr};
+                              "size_observed_nonzero", "operations_overlapped", "linearizability_search_budget_exhausted_history_unjudged", nullptr};
 const char *no_faults[] = {nullptr};
 
 void breset()
@@ -75,10 +75,16 @@ struct Lin
 {
   const std::vector<Op> &o;
   std::set<std::pair<uint32_t, std::vector<uint32_t>>> seen;
+  size_t nodes = 0;
+  bool gave_up = false;  // search budget exhausted: the history stays unjudged (never an alarm)
   explicit Lin(const std::vector<Op> &ops_) : o(ops_) {}
   bool go(uint32_t done, std::vector<uint32_t> &pending)
   {
     size_t n = o.size();
+    if (++nodes > 400000) {
+      gave_up = true;
+      return true;
+    }
     if (done == (n == 32 ? 0xffffffffu : ((1u << n) - 1)))
       return true;
     if (!seen.insert({done, pending}).second)
@@ -188,7 +194,13 @@ void bcheck()
   }
   Lin lin(all);
   std::vector<uint32_t> pending;
-  if (!lin.go(0, pending))
+  bool ok = lin.go(0, pending);
+  if (lin.gave_up) {
+    sim_probe(PB_LIN_BUDGET);
+    sim_note("linearizability search gave up after %zu nodes (history of %zu operations)", lin.nodes, all.size());
+    return;
+  }
+  if (!ok)
     sim_fail("C12:buffer:not-linearizable", "history of %zu operations has no linearization against the sequential buffer model", all.size());
 }
 
